@@ -1208,3 +1208,27 @@ theorem C17.psMapInto_part_count_unchecked_fails :
     psMapInto (fun a : Int => -a) [[1], [2], [7]]
         (.node [.buf 0, .buf 1]) (.node [.buf 2]) = none :=
   ⟨⟨_, rfl, by decide⟩, ⟨_, rfl, by decide⟩, by decide, by decide⟩
+
+/-- ROUND 5 — `px.ufuncs.<f>(x2)` with `x2` from the space of the PARTS of `px` (a power space
+`X^n`, `x2 ∈ X`; `hne`: `x2` is not in `X^n` itself, decided by structure as the model does):
+`x2 in self.elem.space` fails at the top, the same `x2` is handed to every part, where it is
+zipped; the call succeeds, the result has the structure of `px` and its values are, part by
+part, NumPy's `op(part, x2)` — i.e. NumPy's broadcasting of `x2` against the stacked array.
+For every nesting depth of `x2`, every number of parts, every size. Executed as `psbin`,
+compared in the strata `psvalue/bin/sub` and `psvalue/bin/subsub`. -/
+theorem C17.psBin_sub_space {K : Type} (op : K → K → K) (ps : List (PTree K)) (y : PTree K)
+    (hall : ∀ p ∈ ps, p.sameShape y = true) (hne : (PTree.node ps).sameShape y = false) :
+    ∃ r, psBin op (.node ps) (.elem y) = some r ∧
+      r.flatten = (ps.map (fun p => List.zipWith op p.flatten y.flatten)).flatten ∧
+      r.sameShape (.node ps) = true := by
+  obtain ⟨rs, h1, h2, h3⟩ := psBinAll_sub op y ps hall
+  refine ⟨.node rs, ?_, by simpa [PTree.flatten] using h2, by simpa [PTree.sameShape] using h3⟩
+  cases y with
+  | leaf w => simp [psBin, h1]
+  | node qs =>
+    simp only [PTree.sameShape] at hne
+    simp [psBin, hne, h1]
+
+example : ∃ r, psBin (· + ·) (.node [.node [.leaf [1, 2], .leaf [3]], .node [.leaf [4, 5], .leaf [6]]])
+      (.elem (.node [.leaf [10, 20], .leaf [30]])) = some r ∧
+    r.flatten = ([11, 22, 33, 14, 25, 36] : List Int) := ⟨_, rfl, by decide⟩
